@@ -196,6 +196,17 @@ def c20_4(c: Ctx) -> None:
             c.fail(u, f'semaphore created as {U(k)}', 'the concurrency bound is not the configured semaphore_limit', node=k)
         st = q.stmt_of(k)
         subs = [t for t in st.targets if isinstance(t, ast.Subscript)] if isinstance(st, ast.Assign) else []
+        if not subs and isinstance(st, ast.Assign) and len(st.targets) == 1 and isinstance(st.targets[0], ast.Name):
+            # `fresh = Semaphore(n)` / `REG[key] = fresh`: the store that follows in the same block files the new semaphore
+            blk = q.block_of(st) or []
+            i0 = next((i for i, x in enumerate(blk) if x is st), None)
+            nm0 = st.targets[0].id
+            for s2 in (blk[i0 + 1:] if i0 is not None else []):
+                if isinstance(s2, ast.Assign) and isinstance(s2.value, ast.Name) and s2.value.id == nm0 and any(isinstance(t, ast.Subscript) for t in s2.targets):
+                    subs = [t for t in s2.targets if isinstance(t, ast.Subscript)]
+                    break
+                if any(isinstance(x, ast.Name) and x.id == nm0 and isinstance(x.ctx, ast.Store) for x in ast.walk(s2)):
+                    break
         if not subs:
             c.fail(u, f'semaphore not stored in the registry: {q.stmt_text(st, 60)}', 'every call gets a fresh semaphore: no bound at all', node=st)
             continue
@@ -218,7 +229,30 @@ def c20_4(c: Ctx) -> None:
         # creation only when absent (a loop-binding check may be OR-ed in: then the guard is a disjunction containing `key not in reg`)
         gi = q.enclosing(st, (ast.If,))
         disj = [U(v) for v in (gi.test.values if gi is not None and isinstance(gi.test, ast.BoolOp) and isinstance(gi.test.op, ast.Or) else ([gi.test] if gi is not None else []))]
-        if f'{keyv} not in {reg}' in disj or any(d == f'{x} is None' for d in disj for x in lookups_):
+        # guard-clause form: `cached = REG.get(key)` / `if cached is not None and <it is bound to this loop>: return cached` / create.  The creation is then reached only
+        # when there is no entry (or the entry belongs to another event loop): decided on the CFG — no path reaches the creation with the early-return test true
+        early = None
+        blk_ = q.block_of(st) or []
+        i_st = next((i for i, x in enumerate(blk_) if x is st), 0)
+        for if_ in [x for x in blk_[:i_st] if isinstance(x, ast.If)]:
+            if not if_.body or not isinstance(if_.body[0], ast.Return) or if_.body[0].value is None or if_.orelse:
+                continue
+            conj_ = if_.test.values if isinstance(if_.test, ast.BoolOp) and isinstance(if_.test.op, ast.And) else [if_.test]
+            pres = [x for x in conj_ if U(x) in {f'{y} is not None' for y in lookups_} | {f'{keyv} in {reg}'} | set(lookups_)]
+            rest_ = [x for x in conj_ if x not in pres]
+            if pres and all('loop' in U(x).lower() for x in rest_) and (U(if_.body[0].value) in lookups_ or U(if_.body[0].value) == f'{reg}[{keyv}]'):
+                early = if_
+        if early is not None:
+            tatom = U(early.test)
+            f_e = Facts(lambda a: a == tatom or a in lookups_, cg=c.cg, unit=u)
+            cre = g.nodes_of(st)
+            # (a site the fault model cannot reach — a fallback after an error of a third-party constructor — has no CFG nodes: the guard clause stands right before it in its block)
+            if all(q.guard_search(g, n_, f'not ({tatom})', f_e) is None for n_ in cre):
+                c.ok(where(u, st), f'created only after the early return `if {tatom}: return <the entry>` was not taken: no entry for the key (or one that belongs to another event loop)')
+                holders |= {st.targets[0].id} if isinstance(st, ast.Assign) and len(st.targets) == 1 and isinstance(st.targets[0], ast.Name) else set()
+            else:
+                c.fail(u, f'semaphore creation reachable although `{tatom}`', 'an existing semaphore is replaced: waiters on the old one are not counted against the limit', node=st)
+        elif f'{keyv} not in {reg}' in disj or any(d == f'{x} is None' for d in disj for x in lookups_):
             c.ok(where(u, st), f'created only when `{keyv} not in {reg}`' + (' (or the cached one belongs to another event loop)' if len(disj) > 1 else ''))
         else:
             c.fail(u, f'semaphore creation not guarded by `{keyv} not in {reg}`', 'an existing semaphore is replaced: waiters on the old one are not counted against the limit', node=st)
@@ -229,6 +263,8 @@ def c20_4(c: Ctx) -> None:
             if isinstance(v, ast.Name) and v.id in (holders | lookups_):
                 # every binding of the local is the registry entry (looked up, or just stored)
                 binds = [n_ for n_ in own_nodes(u.node) if isinstance(n_, ast.Assign) and any(isinstance(t, ast.Name) and t.id == v.id for t in n_.targets)]
+                if len(binds) == 1 and binds[0] is st and any(isinstance(n_, ast.Assign) and isinstance(n_.value, ast.Name) and n_.value.id == v.id and any(isinstance(t, ast.Subscript) and U(t.value) == reg and U(t.slice) == keyv for t in n_.targets) for n_ in own_nodes(u.node)):
+                    return True  # `fresh = Semaphore(n)` / `REG[key] = fresh` / `return fresh`
                 return bool(binds) and all(any(isinstance(t, ast.Subscript) and U(t.value) == reg for t in b.targets) or (len(b.targets) == 1 and (U(b.value) == f'{reg}[{keyv}]' or (isinstance(b.value, ast.Call) and call_name(b.value) == 'get' and U(b.value.func.value) == reg))) for b in binds)
             return False
 
